@@ -145,7 +145,13 @@ def run(chk, tier, seed):
     def replay(job):
         km, real, pn, progf, schedf, n = job
         hist = os.path.join(wd, "hist-%s-%s.ndjson" % (pn, real))
-        p = subprocess.run([exe, "sched", real, progf, schedf, hist], capture_output=True, text=True, timeout=900)
+        try:
+            p = subprocess.run([exe, "sched", real, progf, schedf, hist], capture_output=True, text=True, timeout=900)
+        except subprocess.TimeoutExpired:
+            chk.violation("conc:%s:%s:hang" % (real, pn), "deterministic replay of %s on %s did not finish within 900 s (it takes seconds): a thread "
+                          "waits for a lock that is never released, or locks are forced open over and over" % (pn, real),
+                          dict(kind="sched", container=real, program=pn))
+            return
         if p.returncode != 0:
             chk.violation("conc:%s:%s:crash" % (real, pn), "deterministic replay of %s on %s died (rc=%s): %s" % (pn, real, p.returncode, p.stderr[-1500:]),
                           dict(kind="sched", container=real, program=pn))
